@@ -1085,6 +1085,7 @@ class Config:  # pylint: disable=too-many-instance-attributes
                 )
             value._parent = self
             value._key = key
+            value._container = None
         elif isinstance(value, dict) and isinstance(field, (Schema, ConfigTypeField)):
             # both Schema and ConfigTypeField implement __call__, which will return a Config object
             cfg = field(self)
